@@ -31,15 +31,19 @@ def _alarm(signum, frame):
     raise RunTimeout()
 
 
-def timed_execute(check, plan):
-    """check.execute under a wall-clock watchdog and an address-space cap; a run that exceeds either is
-    reported as a violation (kind 'hang' / 'memory'), not as a harness error."""
+def timed_execute(check, plan, _retry=True):
+    """check.execute under a CPU-time watchdog and an address-space cap; a run that exceeds either is reported as a
+    violation (kind 'hang' / 'memory'), not as a harness error.  The watchdog counts the process's own CPU time
+    (ITIMER_PROF), not wall time: everything under test is simulated, so a genuine livelock burns CPU, while a worker
+    that is merely descheduled on a loaded host must not be mistaken for one.  A watchdog hit is confirmed by executing
+    the (deterministic) plan a second time; only a hit that repeats is reported.  Wall-clock stalls are left to the
+    per-chunk faulthandler timeout, which is a HARNESS-ERROR."""
     import gc
     import resource
     import signal
     limit = getattr(check, "run_timeout", 20)
-    old = signal.signal(signal.SIGALRM, _alarm)
-    signal.setitimer(signal.ITIMER_REAL, limit)
+    old = signal.signal(signal.SIGPROF, _alarm)
+    signal.setitimer(signal.ITIMER_PROF, limit)
     why = None
     soft, hard = resource.getrlimit(resource.RLIMIT_AS)
     cap = MEM_CAP if hard == resource.RLIM_INFINITY else min(MEM_CAP, hard)
@@ -52,17 +56,19 @@ def timed_execute(check, plan):
     except RunTimeout:
         why = "hang"
     finally:
-        signal.setitimer(signal.ITIMER_REAL, 0)
-        signal.signal(signal.SIGALRM, old)
+        signal.setitimer(signal.ITIMER_PROF, 0)
+        signal.signal(signal.SIGPROF, old)
         resource.setrlimit(resource.RLIMIT_AS, (soft, hard))
     # the exception and the frames it kept alive are released here
     gc.collect()
+    if _retry:
+        return timed_execute(check, plan, _retry=False)
     out = Outcome()
     if why == "memory":
         out.violate("memory", "run exhausted the 1.2 GB address-space cap (runaway allocation in the code under test)", "MemoryError")
     else:
-        out.violate("hang", "run did not finish within %ds wall (simulated steps are bounded, so the code under test loops)" % limit,
-                    "plan executed for more than %d s" % limit)
+        out.violate("hang", "run did not finish within %ds of CPU time (simulated steps are bounded, so the code under test loops)" % limit,
+                    "plan executed for more than %d s of CPU time, twice" % limit)
     out.digest = "hang"
     return out
 
